@@ -21,6 +21,7 @@ func init() { runners["C09"] = runC09 }
 //	core    (driver tier "core" only, bin/evalcore) the evaluator-core validation: every node kind, expected = model
 func runC09(cases string, res *Result) {
 	c09RangeBounds(res)
+	c09NullOverOuterNames(res)
 	var firstKnown = map[string]*Finding{}
 	var knownSize = map[string]int{}
 	readCases(cases, func(c Case) {
@@ -215,6 +216,47 @@ func c09RangeBounds(res *Result) {
 				bad("counters of element " + strconv.Itoa(k+1) + ": " + parts[1] + " " + parts[2] + ", want " + wantCnt + " " + wantFl)
 				break
 			}
+		}
+	}
+}
+
+// c09NullOverOuterNames: a null that a set assigns or a loop binds is the value of that name from then on, also when
+// a variable of the same name exists further out: an engine global, the render context seen from an include, the
+// caller's variable seen from a macro.
+func c09NullOverOuterNames(res *Result) {
+	type tc struct{ name, src, want string }
+	cases := []tc{
+		{"set-null-over-global", "{% set banner = null %}[{{ banner }}|{{ banner is null ? 'n' : 'v' }}|{% if banner %}T{% else %}F{% endif %}|{{ banner|default('d') }}]", "[|n|F|d]"},
+		{"loop-null-element-over-global", "{% for item in xs %}<{{ item }}{{ item is null ? '!' : '' }}>{% endfor %}", "<a><!><c>"},
+		{"loop-null-element-condition", "{% for item in xs %}{% if item %}y{% else %}n{% endif %}{% endfor %}", "yny"},
+		{"set-null-in-loop-later-iterations", "{% set banner = 'b' %}{% for i in [1, 2, 3] %}{{ banner }}:{% if i == 1 %}{% set banner = null %}{% endif %}{% endfor %}|{{ banner }}", "b:::|"},
+		{"set-null-then-later-set-reads-it", "{% set banner = null %}{% set t = banner ~ '!' %}{{ t }}", "!"},
+		{"macro-null-argument-over-caller", "{% macro m(item) %}<{{ item }}{{ item is null ? '!' : '' }}>{% endmacro %}{{ m(null) }}{{ m() }}{{ m('z') }}", "<!><!><z>"},
+		{"include-null-with-over-includer", "{% set item = 'outer' %}{% include 'shows' with {'item': null} %}", "(|n)"},
+		{"include-set-null", "{% set item = 'outer' %}{% include 'nulls' %}/{{ item }}", "(|n)/outer"},
+		{"key-value-loop-null", "{% for banner, item in m %}{{ banner }}={{ item }}{{ item is null ? '!' : '' }};{% endfor %}", "a=!;b=2;"},
+	}
+	for _, c := range cases {
+		eng := twig.New()
+		eng.AddGlobal("banner", "GLOBAL-BANNER")
+		eng.AddGlobal("item", "GLOBAL-ITEM")
+		eng.RegisterString("shows", "({{ item }}|{{ item is null ? 'n' : 'v' }})")
+		eng.RegisterString("nulls", "{% set item = null %}({{ item }}|{{ item is null ? 'n' : 'v' }})")
+		cc := Case{"stream": "c09-null-over-outer", "scenario": c.name, "tpl": c.src}
+		res.Hist["stream:c09-null-over-outer"]++
+		res.Evaluations++
+		res.count("c09-null-over-outer/"+c.name, true)
+		if err := eng.RegisterString("t", c.src); err != nil {
+			res.add(Finding{Kind: "oracle", Where: "c09-null-over-outer/" + c.name, Case: cc, Detail: "parse: " + err.Error()})
+			continue
+		}
+		got, err := eng.Render("t", map[string]interface{}{"xs": []interface{}{"a", nil, "c"}, "m": map[string]interface{}{"a": nil, "b": 2}})
+		if err != nil {
+			got = "error: " + err.Error()
+		}
+		if got != c.want {
+			res.add(Finding{Kind: "oracle", Where: "c09-null-over-outer/" + c.name, Case: cc, Expected: c.want, Observed: got,
+				Detail: "engine globals banner = GLOBAL-BANNER and item = GLOBAL-ITEM exist; a null assigned or bound under those names is what the template reads afterwards"})
 		}
 	}
 }
